@@ -51,7 +51,7 @@ def add_EOS(cfg, eos=None):
     """
     S = _gen_nt("<START>")
     new = cfg.spawn(S=S)
-    eos = eos or EOS
+    eos = EOS if eos is None else eos
     assert eos not in cfg.V
     new.V.add(eos)
     new.add(cfg.R.one, S, cfg.S, eos)
